@@ -10,6 +10,23 @@ TRUST = ("TLC 1.8 and the TLA+ semantics; harness/absmap.py (gamma builds real o
          "alpha reads public props/paths/errors); the bounded universes stated in the evidence file")
 
 CHECKS = {
+ "C06": dict(
+    text="TLC checks on spec/MC_Repr.tla that, for every scalar schema reachable by <=2 (quick) / <=3 (thorough) DSL "
+         "calls, the container universe (nesting <=2 plus deeper extras, keys of six kinds) and results of + and "
+         "make_required, the calls the printer model emits fold back through the DSL model to the schema printed. "
+         "Each schema is built on the real DSL, printed (repr twice, represent), evaluated with {schema, optional, UUID, "
+         "datetime}, compared with ==/!=, re-printed, and re-read with a recording facade; spec/Trace_Repr.tla decides "
+         "the flags and evaluates the recorded expression tree under the spec's DSL.",
+    design="7 C06", technique="TLA+ printer model folded through the DSL model, TLC; real repr/eval round trip "
+                              "trace-validated by TLC"),
+ "C15": dict(
+    text="TLC checks on spec/MC_Eq.tla that the model of == (Props.__eq__ incl. its plain != on prop values) is "
+         "reflexive, symmetric, transitive and that equal schemas give identical verdicts on all probe values, over a "
+         "universe of ~800 (quick) schemas containing every single-parameter variant of the DSL argument universe. All "
+         "ordered pairs are compared on the real objects with == and != in both directions; spec/Trace_Eq.tla decides "
+         "the recorded relation, the verdict comparison of every pair the real code calls equal, rebuild equality and "
+         "schema == value against validate().",
+    design="7 C15", technique="TLA+ equality model + TLC; full real ==/!= relation recorded and trace-validated by TLC"),
  "C13": dict(
     text="TLC explores spec/MC_Comb.tla: a | b, schema.any(a | b, c), d1 + d2, make_required(d, keys), schema.alias, "
          "d[key] and iteration over operand universes (dicts with required/optional/absent keys and the relaxed marker, "
